@@ -24,6 +24,8 @@ namespace CkbVerif.Cache
 
 /-! ## the verification cache -/
 
+deriving instance DecidableEq for Except
+
 inductive TxErr
   | timeRelative     -- Immature / since not satisfied
   | capacity
